@@ -1,0 +1,23 @@
+//go:build verif
+
+package transport
+
+import "sync/atomic"
+
+// Read-only probes for runtime verification builds (build tag verif).
+
+// VerifIsClosed reports whether the client currently considers its connection closed.
+func (tc *TarsClient) VerifIsClosed() bool {
+	tc.conn.connLock.Lock()
+	defer tc.conn.connLock.Unlock()
+	return tc.conn.isClosed
+}
+
+// VerifInvokeNum reads the connection's in-flight counter.
+func (tc *TarsClient) VerifInvokeNum() int32 { return atomic.LoadInt32(&tc.conn.invokeNum) }
+
+// VerifQueueLens returns the lengths of the send queue and the send-fail queue.
+func (tc *TarsClient) VerifQueueLens() (int, int) { return len(tc.sendQueue), len(tc.sendFailQueue) }
+
+// VerifNumConn reads the server's connection counter.
+func (ts *TarsServer) VerifNumConn() int32 { return atomic.LoadInt32(&ts.numConn) }
